@@ -63,8 +63,14 @@ class RepoLock:
     (shared lock); a run against a different checkout (SCRAPLI_REPO) waits until the others are done (exclusive to
     switch).  Held for the whole check run."""
 
+    GROUPS = {"C01": "chan", "C02": "chan", "C03": "priv", "C04": "priv", "C11": "telnet", "C15": "telnet"}
+
+    def __init__(self, pid="all"):
+        # properties that share generated modules share a lock; the others do not wait for each other
+        self.group = self.GROUPS.get(pid, pid)
+
     def __enter__(self):
-        path = LEAN / ".repo.lock"
+        path = LEAN / f".repo-{self.group}.lock"
         me = str(REPO.resolve())
         while True:
             self.f = open(path, "a+")
@@ -129,9 +135,9 @@ def audit_axioms(module: str, lean_file: Path, extra_files=()):
     p = subprocess.run(["lake", "env", "lean", str(audit.relative_to(LEAN))], cwd=LEAN, capture_output=True, text=True, timeout=1200)
     out = p.stdout + p.stderr
     res = {n: None for n in names}
-    for m in re.finditer(r"'([^']+)' depends on axioms: \[([^\]]*)\]", out, flags=re.S):
+    for m in re.finditer(r"^'(\S+)' depends on axioms: \[([^\]]*)\]", out, flags=re.S | re.M):
         res[m.group(1)] = [a.strip() for a in m.group(2).replace("\n", " ").split(",") if a.strip()]
-    for m in re.finditer(r"'([^']+)' does not depend on any axioms", out):
+    for m in re.finditer(r"^'(\S+)' does not depend on any axioms", out, flags=re.M):
         res[m.group(1)] = []
     return res, out
 
